@@ -69,7 +69,7 @@ func (f *Dox) Call(s *slip.Scope, args slip.List, depth int) (result slip.Object
 		return loopExit(exit)
 	}
 	for {
-		tv := ns.Eval(test, d2)
+		tv := slip.PrimaryValue(ns.Eval(test, d2))
 		if slip.IsExit(tv) {
 			return loopExit(tv)
 		}
@@ -105,7 +105,7 @@ func (f *Dox) Call(s *slip.Scope, args slip.List, depth int) (result slip.Object
 		}
 		for _, sb := range steps {
 			if !sb.noStep {
-				v := ns.Eval(sb.step, d2)
+				v := slip.PrimaryValue(ns.Eval(sb.step, d2))
 				if slip.IsExit(v) {
 					return loopExit(v)
 				}
